@@ -141,6 +141,12 @@ Inv_C04_NoPanic  == IsCase => Code # "panic"
 Inv_C04_Exact ==
     IsCase => LET own == OwnPath(key) IN
               Ideal = IF own.ok /\ Len(pf) >= Len(own.p) /\ Take(pf, Len(own.p)) = own.p THEN "true" ELSE "false"
+\* the same three for the intended design, whatever KnownDefects says (lets one run check the design and
+\* export the cases with the code-as-is verdicts)
+Inv_C04_Design ==
+    IsCase => /\ Ideal # "panic"
+              /\ (Ideal = "true" => Present(key))
+              /\ (Present(key) => VerifyOn(rootc, key, OwnPath(key).p, {}) = "true")
 \* the stored structures are what they are said to be
 Inv_Cache == rootc = Canon(map) /\ proofs = [k \in DOMAIN map |-> Path(rootc, Hex(k)).p]
 =============================================================================
